@@ -203,14 +203,12 @@ func pathString(p []keyElem) string {
 }
 
 type tables struct {
-	// while a value handed to a literal table row's setter is followed: table -> row+1
-	rowCtx map[*ssa.Alloc]int
-	w      *World
-	pr     *prover
-	pw     map[*ssa.Function]*pwInfo
-	jsW    map[*ssa.Function][]*site
-	jsR    map[*ssa.Function][]*site
-	gobW   map[*ssa.Function][]*site
+	w    *World
+	pr   *prover
+	pw   map[*ssa.Function]*pwInfo
+	jsW  map[*ssa.Function][]*site
+	jsR  map[*ssa.Function][]*site
+	gobW map[*ssa.Function][]*site
 	// functions/closures that store into the property map under a key parameter
 	gobHelpers map[*ssa.Function][]gobHelper
 	gobR       map[*ssa.Function][]*site
@@ -840,9 +838,20 @@ func variadicElems(v ssa.Value) ([]ssa.Value, bool) {
 	return elems, true
 }
 
+// rowCtx: while the value handled for one row of a literal table is followed (a setter closure's argument, a store
+// through the row's pointer field), table -> row+1: keys read from the ranged row are that row's constants.
+var rowCtx = map[*ssa.Alloc]int{}
+
 func keyOf(v ssa.Value) keyElem {
 	if s, ok := constString(v); ok {
 		return keyElem{c: s, param: -1}
+	}
+	if len(rowCtx) > 0 {
+		if rows, kf, table, isRow := literalTableRowsOf(v); isRow && rowCtx[table] > 0 {
+			if s, ok := constString(rows[rowCtx[table]-1][kf]); ok {
+				return keyElem{c: s, param: -1}
+			}
+		}
 	}
 	if bo, ok := v.(*ssa.BinOp); ok && bo.Op == token.ADD {
 		if s, ok := constString(bo.Y); ok {
@@ -1185,9 +1194,9 @@ func (t *tables) keysOf(v ssa.Value, seen map[ssa.Value]bool, depth int, out *[]
 		if isGobMap(x.X.Type()) {
 			if k, ok := constString(x.Index); ok {
 				*gobKeys = append(*gobKeys, k)
-			} else if rows, kf, table, isRow := literalTableRowsOf(x.Index); isRow && t.rowCtx[table] > 0 {
+			} else if rows, kf, table, isRow := literalTableRowsOf(x.Index); isRow && rowCtx[table] > 0 {
 				// mm[row.key] while following the value handed to the same row's setter: that row's key
-				if k, ok := constString(rows[t.rowCtx[table]-1][kf]); ok {
+				if k, ok := constString(rows[rowCtx[table]-1][kf]); ok {
 					*gobKeys = append(*gobKeys, k)
 				} else {
 					*gobKeys = append(*gobKeys, "<opaque>")
@@ -1256,12 +1265,9 @@ func (t *tables) keysOf(v ssa.Value, seen map[ssa.Value]bool, depth int, out *[]
 		// the parameter of a setter closure kept in a row of a literal table ({key, func(v T) { x.F = v }}) and called
 		// through the ranged row (row.set(dec(mm[row.key]))): what the call hands over, read with that row's key
 		for _, ra := range rowSetterArgs(x) {
-			if t.rowCtx == nil {
-				t.rowCtx = map[*ssa.Alloc]int{}
-			}
-			t.rowCtx[ra.table] = ra.row + 1
+			rowCtx[ra.table] = ra.row + 1
 			t.keysOf(ra.arg, seen, depth+1, out, gobKeys)
-			delete(t.rowCtx, ra.table)
+			delete(rowCtx, ra.table)
 		}
 	}
 }
@@ -1357,6 +1363,16 @@ func (t *tables) extractReads(f *ssa.Function) {
 			case *ssa.Store:
 				if fa, ok := x.Addr.(*ssa.FieldAddr); ok {
 					mk(in, fa, []ssa.Value{x.Val}, b, nil)
+				} else if rows, df, table, isRow := literalTableRowsOf(x.Addr); isRow {
+					// for _, m := range [...]struct{dst *T; prop string}{{&p.A, "a"}, …} { *m.dst = get(val, m.prop) }:
+					// one read site per row, its key being that row's
+					for j, row := range rows {
+						if rfa, isFA := row[df].(*ssa.FieldAddr); isFA {
+							rowCtx[table] = j + 1
+							mk(in, rfa, []ssa.Value{x.Val}, b, nil)
+							delete(rowCtx, table)
+						}
+					}
 				}
 			case *ssa.Call:
 				cc := x.Common()
